@@ -11,7 +11,7 @@ RULE = ("complete layer: every well-formed document with <= 3 nodes over keys {a
         "{null,true,false,0,1,2,1.5,'a','ab',''} (maps with keys in alphabet order, sequences, sets) x every 1-segment "
         "path of the 58-item vocabulary, and every document with <= 3 nodes over the reduced alphabet "
         "(keys a,b,1; values null,true,1,1.5,'a','ab') x every 2-segment path of the core vocabulary (26 items; thorough: "
-        "full alphabet x full vocabulary squared); plus seeded-random documents (<= 25 nodes: Arrays-of-Hashes, sets, anchors and "
+        "reduced alphabet x full vocabulary squared, and full alphabet x core vocabulary squared); plus seeded-random documents (<= 25 nodes: Arrays-of-Hashes, sets, anchors and "
         "aliases, nested lists) x random paths of <= 5 segments (indexes and slice bounds in -9..9).  Each case is asked through "
         "get_nodes(mustexist=True) and exists() in dot notation, get_nodes(mustexist=True) in slash notation (when both texts parse "
         "to the same segments) and get_nodes(mustexist=False) on a fresh copy when the model's optional evaluation creates nothing.  "
@@ -20,7 +20,7 @@ RULE = ("complete layer: every well-formed document with <= 3 nodes over keys {a
         "distinct_nontrivial = distinct (document, path) whose required query returns at least one node.")
 
 
-def build_jobs(chk, opts, nrand_quick=80000, nrand_thorough=2000000, grid=False):
+def build_jobs(chk, opts, nrand_quick=80000, nrand_thorough=1000000, grid=False):
     rng = random.Random(chk.seed)
     tier = chk.tier
     jobs = []
@@ -40,13 +40,17 @@ def build_jobs(chk, opts, nrand_quick=80000, nrand_thorough=2000000, grid=False)
         nrand = nrand_quick
     else:
         two_full = [[a, b] for a in ev.VOCAB for b in ev.VOCAB]
-        for d in docs3 + anch:
+        for d in docs3s + anch:
             for p in two_full:
+                cases.append((d, p))
+        for d in docs3:
+            for p in two_core:
                 cases.append((d, p))
         nrand = nrand_thorough
     chk.extra_cov["exhaustive_bound"] = ("%d documents (<= 3 nodes) x %d one-segment paths; %d documents x %d two-segment paths" % (
-        len(docs3) + len(anch), len(one), len(docs3s) + 60 if tier == "quick" else len(docs3) + len(anch),
-        len(two_core) if tier == "quick" else len(ev.VOCAB) ** 2))
+        len(docs3) + len(anch), len(one), len(docs3s) + 60 if tier == "quick" else len(docs3s) + len(anch),
+        len(two_core) if tier == "quick" else len(ev.VOCAB) ** 2)
+        + ("" if tier == "quick" else "; %d documents x %d core two-segment paths" % (len(docs3), len(two_core))))
     chk.extra_cov["exhaustive_cases"] = len(cases)
     rnd = []
     for _ in range(nrand):
